@@ -200,9 +200,19 @@ func main() {
 	}
 
 	output := &Output{Repo: *repo, Packages: pkgs, LoadSec: loadSec, Solver: solverCmd}
+	// the time budget covers the whole invocation, not each entry: entries reached after it is used
+	// up are explored for a token second and reported incomplete
+	globalDeadline := time.Now().Add(*budget)
 	for _, e := range entries {
+		remaining := *budget
+		if *budget > 0 {
+			remaining = time.Until(globalDeadline)
+			if remaining < time.Second {
+				remaining = time.Second
+			}
+		}
 		opts := interp.Options{SolverCmd: solverCmd, Workers: nw, MaxPaths: *maxPaths, MaxSteps: *maxSteps,
-			TimeBudget: *budget, MaxViolations: *maxViol, Verbose: *verbose, ExploreSched: *sched, Preemptions: *preempt}
+			TimeBudget: remaining, MaxViolations: *maxViol, Verbose: *verbose, ExploreSched: *sched, Preemptions: *preempt}
 		var seed []interp.Decision
 		if *replayFile != "" {
 			b, err := os.ReadFile(*replayFile)
